@@ -1,13 +1,17 @@
 import MakoModel.Codegen.Refine
 import MakoModel.Lexer.Plain
 /-!
-# Literal text end to end: lexer → template → generated code → execution
+# Literal text and the documented escapes end to end: lexer → template → generated code → execution
 
-`tmplOfTokens` maps a token list made of `Text` tokens to the structured template; `exec_textOnly` computes the
-execution of the code generated for such a template (every fuel above an explicit bound, every crash point – a
-text-only template has no evaluation point); `render_textOnly` does the same for the whole `render`.  With
-`Lexer.lex_plain` this gives `render_literal` (stated in `Props/C01.lean`): a directive-free source is rendered
-as itself.
+* `silentPayload` – the tokens for which the code generator emits nothing (bare backslash-newline, `##` / `<%doc>`
+  comments, the tags of an unfiltered `<%text>`); `tmplOfTokens` maps a token list made of text tokens and silent
+  tokens to the structured template (`none` for any other token kind); `textsOf` is the concatenation of the text
+  contents; `EscapeOnly` the decidable predicate "only such tokens", `tmplOfTokens_of_escapeOnly` its link.
+* `exec_textOnly` / `exec_hoist_textOnly` / `exec_codegen_textOnly` compute the execution of the code generated
+  for a text-only template (every fuel above an explicit bound, every crash point – such a template has no
+  evaluation point); `render_textOnly` and `render_text_tokens_core` do the same for the whole `render`.
+* Used by `Props/C01.lean`: `render_text_tokens`, `render_literal` (with `Lexer.lex_plain`: a directive-free source
+  is rendered as itself), `render_escape_tokens`, `render_documented_escapes_partial`.
 -/
 namespace MakoModel.Codegen
 open MakoModel.Target
